@@ -275,6 +275,19 @@ fn consume_with_data(bytes: &[u8], prefix: usize) -> Vec<Vec<u8>> {
     out
 }
 
+/// a panic inside the code under test is an observation (the stream is not decodable under that chunking), not a harness failure
+fn guarded<T>(f: impl FnOnce() -> T) -> Result<T, String> {
+    std::panic::catch_unwind(std::panic::AssertUnwindSafe(f)).map_err(|e| {
+        if let Some(s) = e.downcast_ref::<String>() {
+            s.clone()
+        } else if let Some(s) = e.downcast_ref::<&str>() {
+            s.to_string()
+        } else {
+            "panic".to_string()
+        }
+    })
+}
+
 fn chunk_fixed(n: usize, c: usize) -> Vec<usize> {
     let mut v = vec![c; n / c];
     if n % c > 0 {
@@ -383,16 +396,34 @@ fn bufreader(r: &mut StdRng, n_streams: u64, rep: &mut Report) {
             families.push(("split-in-prefix", vec![cut2.min(n), n - cut2.min(n)]));
         }
         for (fam, chunks) in &families {
-            let got = consume_scan(&st.bytes, chunks);
+            let got = match guarded(|| consume_scan(&st.bytes, chunks)) {
+                Ok(g) => g,
+                Err(msg) => {
+                    rep.evaluations += 1;
+                    rep.violation(format!("bufreader/scan/panic/{}", fam), json!({"panic": msg, "body_lens": st.lens, "chunks": if chunks.len() > 40 { json!(chunks.len()) } else { json!(chunks) }}));
+                    continue;
+                }
+            };
             let ok1 = compare(rep, "scan", fam, &st, chunks, &got, &want);
-            let got = consume_eof(&st.bytes, chunks);
+            let got = match guarded(|| consume_eof(&st.bytes, chunks)) {
+                Ok(g) => g,
+                Err(msg) => {
+                    rep.evaluations += 1;
+                    rep.violation(format!("bufreader/eof-loop/panic/{}", fam), json!({"panic": msg, "body_lens": st.lens}));
+                    continue;
+                }
+            };
             let ok2 = compare(rep, "eof-loop", fam, &st, chunks, &got, &want);
             if ok1 && ok2 {
                 rep.shape(format!("buf/{}/{}/{}/{}", fam, st.align, if grew { "grow" } else { "nogrow" }, tail_c));
             }
         }
-        let got = consume_with_data(&st.bytes, 8);
-        compare(rep, "with-data", "whole", &st, &[n], &got, &want);
+        match guarded(|| consume_with_data(&st.bytes, 8)) {
+            Ok(got) => {
+                compare(rep, "with-data", "whole", &st, &[n], &got, &want);
+            }
+            Err(msg) => rep.violation("bufreader/with-data/panic".to_string(), json!({"panic": msg})),
+        }
         if si < 3 {
             rep.sample(json!({"kind":"bufreader","body_lens": st.lens, "stream_len": n, "align": st.align, "families": families.iter().map(|f| f.0).collect::<Vec<_>>()}), 6);
         }
@@ -411,17 +442,30 @@ fn bufreader_exhaustive(r: &mut StdRng, n_streams: u64, rep: &mut Report) {
         let mut all_ok = true;
         for s in 0..=n {
             let chunks = [s, n - s];
-            let got = consume_scan(&st.bytes, &chunks);
-            all_ok &= compare(rep, "scan", "exh2", &st, &chunks, &got, &want);
-            let got = consume_eof(&st.bytes, &chunks);
-            all_ok &= compare(rep, "eof-loop", "exh2", &st, &chunks, &got, &want);
+            match guarded(|| (consume_scan(&st.bytes, &chunks), consume_eof(&st.bytes, &chunks))) {
+                Ok((g1, g2)) => {
+                    all_ok &= compare(rep, "scan", "exh2", &st, &chunks, &g1, &want);
+                    all_ok &= compare(rep, "eof-loop", "exh2", &st, &chunks, &g2, &want);
+                }
+                Err(msg) => {
+                    all_ok = false;
+                    rep.evaluations += 1;
+                    rep.violation("bufreader/scan/panic/exh2".to_string(), json!({"panic": msg, "body_lens": st.lens, "chunks": chunks}));
+                }
+            }
         }
         if n <= 160 {
             for a in 0..=n {
                 for b in a..=n {
                     let chunks = [a, b - a, n - b];
-                    let got = consume_scan(&st.bytes, &chunks);
-                    all_ok &= compare(rep, "scan", "exh3", &st, &chunks, &got, &want);
+                    match guarded(|| consume_scan(&st.bytes, &chunks)) {
+                        Ok(got) => all_ok &= compare(rep, "scan", "exh3", &st, &chunks, &got, &want),
+                        Err(msg) => {
+                            all_ok = false;
+                            rep.evaluations += 1;
+                            rep.violation("bufreader/scan/panic/exh3".to_string(), json!({"panic": msg, "chunks": chunks}));
+                        }
+                    }
                 }
             }
             rep.count("exhaustive3_streams", 1);
@@ -651,6 +695,7 @@ mod quick_protobuf_len {
 }
 
 pub fn run(args: &Args) -> anyhow::Result<()> {
+    std::panic::set_hook(Box::new(|_| {}));   // panics of the code under test are caught and reported as observations
     let seed = args.u64("seed", 1);
     let scale = args.u64("scale", 1);
     let dir = args.str("dir", "/tmp/vh-c20");
